@@ -1252,15 +1252,8 @@ impl PeerAware for PeerStates {
             .with_remote_asn(pph.asn())
             .with_rib_type(pph.rib_type())
         ;
-        let peer_ingress_id;
-        if let Some((ingress_id, _ingress_info)) = ingress_register.find_existing_peer(&query_ingress) {
-            peer_ingress_id = ingress_id;
-        } else {
-            #[cfg(feature = "verif-hooks")]
-            crate::verif::point("add_peer_config.lookup_missed");
-            peer_ingress_id = ingress_register.register();
-            ingress_register.update_info(peer_ingress_id, query_ingress);
-        }
+        let peer_ingress_id =
+            ingress_register.find_or_register_peer(query_ingress);
 
         let _ = self.0.entry(pph.clone()).or_insert_with(|| {
             added = true;
